@@ -67,7 +67,7 @@ def parse_harness_file(path):
                 kv["props"] = kv.get("props", "").split(",")
                 kv["tier"] = kv.get("tier", "quick")
                 kv["timeout"] = int(kv.get("timeout", "900"))
-                kv["mem"] = float(kv.get("mem", "14"))
+                kv["mem"] = float(kv.get("mem", "9"))
                 kv["builds"] = kv.get("builds", "default").split(",")
                 out.append(kv)
             i = j
